@@ -74,6 +74,25 @@ MODEL_B = """<?xml version="1.0" encoding="UTF-8"?>
 <encapsulatedLogic><formalParameter name="items"/><formalParameter name="pos" typeRef="number"/>
 <literalExpression><text>items[pos]</text></literalExpression></encapsulatedLogic>
 </businessKnowledgeModel>
+<itemDefinition name="tCur"><typeRef>string</typeRef><allowedValues><text>"CHF", "EUR", "USD"</text></allowedValues></itemDefinition>
+<itemDefinition name="tLvl"><typeRef>number</typeRef><allowedValues><text>[1..5], 10</text></allowedValues></itemDefinition>
+<itemDefinition name="tCurs" isCollection="true"><typeRef>tCur</typeRef></itemDefinition>
+<itemDefinition name="tRec"><itemComponent name="cur"><typeRef>tCur</typeRef></itemComponent><itemComponent name="lvl"><typeRef>tLvl</typeRef></itemComponent><itemComponent name="free"><typeRef>string</typeRef></itemComponent></itemDefinition>
+<inputData name="Cur" id="_Cur"><variable name="Cur" typeRef="tCur"/></inputData>
+<inputData name="Lvl" id="_Lvl"><variable name="Lvl" typeRef="tLvl"/></inputData>
+<inputData name="Curs" id="_Curs"><variable name="Curs" typeRef="tCurs"/></inputData>
+<inputData name="Rec" id="_Rec"><variable name="Rec" typeRef="tRec"/></inputData>
+<decision name="Typed" id="_Typed"><variable name="Typed"/>
+<informationRequirement><requiredInput href="#_Cur"/></informationRequirement>
+<informationRequirement><requiredInput href="#_Lvl"/></informationRequirement>
+<informationRequirement><requiredInput href="#_Curs"/></informationRequirement>
+<informationRequirement><requiredInput href="#_Rec"/></informationRequirement>
+<literalExpression><text>["settle in " + Cur, Lvl * 2, Curs, Rec.cur, Rec.lvl, Rec.free]</text></literalExpression>
+</decision>
+<decision name="TypedOut" id="_TypedOut"><variable name="TypedOut" typeRef="tCur"/>
+<informationRequirement><requiredInput href="#_Cur"/></informationRequirement>
+<literalExpression><text>Cur</text></literalExpression>
+</decision>
 <decisionService name="Svc" id="_Svc"><variable name="Svc"/>
 <outputDecision href="#_All"/>
 <encapsulatedDecision href="#_Regex"/><encapsulatedDecision href="#_Numeric"/><encapsulatedDecision href="#_Temporal"/>
@@ -83,7 +102,7 @@ MODEL_B = """<?xml version="1.0" encoding="UTF-8"?>
 
 
 def build_workload(rng):
-    models, calls, services = [], [], [[0, "Svc"], [0, "Iter"], [0, "Deep"], [0, "RxPlain"], [0, "RxFlags"], [0, "Zones"]]
+    models, calls, services = [], [], [[0, "Svc"], [0, "Iter"], [0, "Deep"], [0, "RxPlain"], [0, "RxFlags"], [0, "Zones"], [0, "Typed"], [0, "TypedOut"]]
     models.append(MODEL_B)
     txts = ["abc123", "hello", "x9y8z7", "żółć", "aeiou", "UPPER", "a1", "", "a.c", "A\nbC", "aa.b+"]
     # among them days on which a named zone skips or repeats an hour (the local times of `Zones` then do not exist or are ambiguous)
@@ -92,6 +111,12 @@ def build_workload(rng):
         inp = [["Txt", {"s": rng.choice(txts)}], ["Num", {"n": str(rng.randint(1, 10 ** 6)) + "." + str(rng.randint(0, 999))}], ["Day", {"s": rng.choice(days)}]]
         for inv in ("Regex", "RxPlain", "RxFlags", "Numeric", "Temporal", "Zones", "Iter", "Deep", "All", "Svc"):
             calls.append([0, inv, inp])
+        # inputs typed by item definitions with allowed values (alone, as items of a collection, as components): values inside and outside
+        curs, lvls = ["CHF", "EUR", "USD", "GBP", "chf", ""], ["1", "3", "5", "10", "0", "6", "2.5"]
+        tinp = [["Cur", {"s": rng.choice(curs)}], ["Lvl", {"n": rng.choice(lvls)}], ["Curs", [{"s": rng.choice(curs)} for _ in range(rng.randint(0, 4))]],
+                ["Rec", {"c": [["cur", {"s": rng.choice(curs)}], ["lvl", {"n": rng.choice(lvls)}], ["free", {"s": rng.choice(txts)}]]}]]
+        calls.append([0, "Typed", tinp])
+        calls.append([0, "TypedOut", tinp])
     # generated graphs: nested decisions + BKMs + services + tables (read locks nest several levels deep)
     for k, shape in enumerate(["mixed", "service-and-direct", "bkm-chain"]):
         m = None
